@@ -14,6 +14,7 @@ def _if_with(fi, pred):
 
 
 def run(repo, rep, tier):
+    rep.rule("R-C08-5", "the target freq / dir arguments reach the output coordinates unchanged (array coercion only)")
     rep.rule("R-C08-1", "circular padding pairs: the LAST sorted direction relabelled -360 in front when the target reaches below the "
                         "source minimum; the FIRST relabelled +360 behind when it reaches above the maximum")
     rep.rule("R-C08-2", "frequency interpolation fills 0 beyond the source range; a zero-energy anchor at f=0 is prepended when the "
@@ -195,6 +196,37 @@ def run(repo, rep, tier):
         t = unparse(f2.node)
         if f"{mm0}={mm0}" not in t:
             rep.fail("R-C08-3", f2.file, f2.node.lineno, f2.qualname, "forwarding of maintain_m0", "the accessor must pass maintain_m0 through")
+    # every caller inside the package keeps variance conservation on (or forwards its own switch)
+    ncall = 0
+    for f3 in repo.all_funcs():
+        for c_ in ast.walk(f3.node):
+            if isinstance(c_, ast.Call) and call_name(c_).split(".")[-1] == "regrid_spec":
+                ncall += 1
+                k_ = kwarg(c_, mm0)
+                if k_ is None:
+                    continue
+                if (isinstance(k_, ast.Name) and k_.id in f3.params) or repo.const(f3.module, k_) is True:
+                    rep.ok("R-C08-3", f"{f3.file}:{c_.lineno} {f3.short}", f"{mm0}={unparse(k_)}", "forwarded / on")
+                else:
+                    rep.fail("R-C08-3", f3.file, c_.lineno, f3.qualname, unparse(c_)[:110],
+                             f"{f3.short} switches variance conservation off: on irregular, partially covering or duplicated-bin direction "
+                             "grids the interpolated spectrum no longer has the input's Hs", anchor=f"regrid-caller:{f3.short}:{mm0}")
+    rep.floor("R-C08-3", "callers of regrid_spec", ncall, 3)
+    # the requested coordinates are returned as given: the target parameters are only coerced to arrays, never recomputed
+    for pn in (freq, dirp):
+        for a_ in ast.walk(fi.node):
+            if isinstance(a_, (ast.Assign, ast.AugAssign)):
+                tg = a_.targets if isinstance(a_, ast.Assign) else [a_.target]
+                if any(isinstance(t_, ast.Name) and t_.id == pn for t_ in tg):
+                    v_ = a_.value
+                    coercion = isinstance(a_, ast.Assign) and isinstance(v_, ast.Call) and call_name(v_).split(".")[-1] in ("array", "asarray", "atleast_1d", "asanyarray") \
+                        and v_.args and unparse(v_.args[0]) == pn
+                    if coercion:
+                        rep.ok("R-C08-5", f"{fi.file}:{a_.lineno} regrid_spec", unparse(a_), "type coercion only: values are the caller's")
+                    else:
+                        rep.fail("R-C08-5", fi.file, a_.lineno, fi.qualname, unparse(a_)[:100],
+                                 f"the target '{pn}' values are recomputed before they become the output coordinate: the result no longer carries "
+                                 "exactly the requested coordinates (e.g. 360 comes back as 0, negative directions shifted)", anchor=f"regrid-target:{pn}")
     # ---- rotate ---------------------------------------------------------------------------------------
     rt = repo.func("wavespectra.specarray.SpecArray.rotate")
     from ..astutil import returns as _returns
